@@ -111,6 +111,7 @@ type State struct {
 	boxedHere   map[*Cell]bool  // cells whose content has been moved to the box heap on this path
 	scopeNeeds  []scopeNeed     // row sources introduced on this path that still need an owner predicate (scope.go)
 	ctes        map[string]bool // names defined by With(name, ...) on this path
+	monInst     []monInst           // monitors with interference whose mutex this path has locked at least once
 	backOf      map[string]storedBacking // backing of the slice last stored in a heap field on this path (copy on write)
 	escaped     map[string]bool     // fresh backing arrays handed to a call (copy on write)
 	roRouters   map[string]bool // chi routers on which api.ReadOnly is installed (copy on write, see markRO)
@@ -240,6 +241,7 @@ func (s *State) clone() *State {
 		}
 	}
 	n.roRouters = s.roRouters
+	n.monInst = append([]monInst{}, s.monInst...)
 	n.backOf = s.backOf
 	n.escaped = s.escaped
 	if s.ctes != nil {
